@@ -63,6 +63,9 @@ ASSUMED = [
     "callee contract (cut) inside encode_bitpacked: encode_unsigned_varint(x, o) with loc + uleb_len(x) <= nbytes writes the minimal "
     "ULEB128 of x at the cursor, advances by its length and modifies nothing else - proved on the real source by "
     "encode_unsigned_varint.bytes_are_uleb[len=1..10] / .cursor / .frame in the same run",
+    "callee contract (cut) inside encode_bitpacked: NumpyIO.write_byte(b) with loc < nbytes (posed as the caller's obligation "
+    "write_byte_inside_buffer) stores b at loc and advances loc by one - proved on the real source by NumpyIO.write_byte.effect / .frame "
+    "(contracts/kernels.py, same property)",
     "callee contract (cut) inside encode_rle_bp: encode_bitpacked advances the cursor by K >= 1 bytes and writes only those K bytes - "
     "proved per width by encode_bitpacked[w].cursor_covers_all_value_bits / .frame / .header_is_spec",
     "precondition of the encoders: every value v satisfies 0 <= v < 2**width (callers choose width = width_from_max_int(max)); "
@@ -88,6 +91,25 @@ def has_q(e):
         _HASQ[k] = (r, e)                      # keep the term alive: ids are only unique among live terms
         return r
     return r[0]
+
+
+_HASBV = {}
+
+
+def has_bv(e):
+    k = e.get_id()
+    r = _HASBV.get(k)
+    if r is None:
+        srt = e.sort()
+        r = srt.kind() in (z3.Z3_BV_SORT, z3.Z3_ARRAY_SORT) or z3.is_quantifier(e) or any(has_bv(c) for c in e.children())
+        _HASBV[k] = (r, e)
+        return r
+    return r[0]
+
+
+def lia_part(pc):
+    """the purely arithmetic part of a path condition (no bit-vector, array or quantified subterm): enough for cursor algebra"""
+    return [c for c in pc if not has_bv(c)]
 
 
 def qf(pc):
@@ -142,9 +164,22 @@ class EncEngine(Engine):
     """`(even value) | 1` keeps its integer view (value + 1): the run header `groups << 1 | 1` stays linear arithmetic.  Evenness is
     decided by the solver under the path condition, like the engine's own representability checks."""
 
+    def fits_fn(self, p):
+        """as the engine's, on the quantifier-free path condition and with a timeout that survives a loaded machine"""
+        if p is None:
+            return None
+
+        def fits(iv, lo, hi):
+            sol = z3.Solver()
+            sol.set("timeout", 3000)
+            sol.add(*qf(p.pc))
+            sol.add(z3.Or(iv < lo, iv > hi))
+            return sol.check() == z3.unsat
+        return fits
+
     def _even(self, p, iv):
         s = z3.Solver()
-        s.set("timeout", 500)
+        s.set("timeout", 3000)
         if p is not None:
             s.add(*qf(p.pc))
         s.add(iv % 2 != 0)
@@ -165,6 +200,19 @@ class EncEngine(Engine):
                     return CI(r.bv, r.bits, r.signed, u.iv + 1, (u.rng[0], u.rng[1] | 1) if u.rng else None)
         return r
 
+    def conv(self, v, bits, signed, p=None):
+        # a symbolic Python int converted to a C integer keeps its value without `mod` when the solver shows it representable
+        # under the path condition (the engine does this for C integers; here also for Python ints such as `(n + 7) // 8`)
+        if isinstance(v, PyI) and p is not None and not z3.is_int_value(z3.simplify(v.z)):
+            lo, hi = (-(1 << (bits - 1)), (1 << (bits - 1)) - 1) if signed else (0, (1 << bits) - 1)
+            s = z3.Solver()
+            s.set("timeout", 3000)
+            s.add(*qf(p.pc))
+            s.add(z3.Or(v.z < lo, v.z > hi))
+            if s.check() == z3.unsat:
+                return CI(z3.Int2BV(v.z, bits), bits, signed, v.z, (lo, hi))
+        return super().conv(v, bits, signed, p)
+
     def py_arith(self, op, x, y, p, node):
         if isinstance(op, ast.BitOr):
             sy = z3.simplify(y)
@@ -180,6 +228,7 @@ def engine(loops=None, handlers=None, extra_funcs=None, opaque_calls=False):
         funcs.update(extra_funcs)
     eng = EncEngine(funcs=funcs, inline=("*",), loops=loops or {}, handlers=handlers or {}, opaque_calls=opaque_calls)
     eng.class_fields = fields
+    eng.feas_timeout = 3000
     for name, (t, expr) in consts.items():
         ct = eng.ctype(t)
         if ct:
@@ -306,6 +355,24 @@ def _assigned_names(stmts):
     return names
 
 
+def h_write_byte_contract(eng, p, args, kw, node):
+    """NumpyIO.write_byte(b) by its contract (kernels: NumpyIO.write_byte.effect / .frame, proved on the real source in the same property):
+    with loc < nbytes - posed as an obligation of the caller - the byte is stored at loc and loc advances by one; nothing else changes"""
+    o, b = args[0], args[1]
+    if not isinstance(o, Ref):
+        raise Unsupported("write_byte on something that is not a NumpyIO")
+    name = o.oid
+    loc0, nb = cy.loc(p, name), cy.nbytes(p, name)
+    eng.oblige(p, f"{eng.cur_func}.write_byte_inside_buffer@L{node.lineno}", "safety", z3.And(loc0 >= 0, loc0 < nb), node,
+               note="NumpyIO.write_byte drops the byte silently when the buffer is full: the caller's capacity precondition must exclude it")
+    bv = eng.conv(b, 8, False, p).bv
+    p.mem[name] = z3.Store(p.mem[name], loc0, bv)
+    nl = loc0 + 1
+    p.heap[name] = dict(p.heap[name], loc=CI(z3.Int2BV(nl, 32), 32, False, nl, (0, 2 ** 32 - 1)))
+    p.pc.append(loc0 < nb)                      # cut (posed just above)
+    return [(p, NONE)]
+
+
 def inst(p, kind, *terms):
     """instances of the universally quantified facts of kind `kind` recorded on path p (p.ghost['facts']: list of (kind, fn(term) -> Bool));
     the facts are never put into the path condition as quantifiers: every query stays quantifier-free"""
@@ -359,10 +426,16 @@ def encode_bitpacked_closure(w, timeout, max_states=64):
         mem_h = p.mem["o"]
         g["base"], g["mem_h"] = base, mem_h
         header_facts = list(g.get("facts", []))
-        b0 = _cval(p.env["bit"]) if isinstance(p.env.get("bit"), CI) else None
-        if b0 is None or not isinstance(p.env.get("bits"), CI):
-            raise Unsupported("encode_bitpacked: control variable `bit` / accumulator `bits` not found or not concrete on loop entry")
-        lia, bvs = mk_inv(p, b0, z3.IntVal(0), z3.IntVal(0), eng.conv(p.env["bits"], 32, True, p).bv, n, base)
+        # the control variable (pending bit count) is the one the inner `while <name> >= 8` drains; the accumulator is the target of `|=`
+        BIT = next((nd.test.left.id for nd in ast.walk(st) if isinstance(nd, ast.While) and isinstance(nd.test, ast.Compare)
+                    and isinstance(nd.test.left, ast.Name)), "bit")
+        BITS = next((nd.target.id for nd in ast.walk(st) if isinstance(nd, ast.AugAssign) and isinstance(nd.op, ast.BitOr)
+                     and isinstance(nd.target, ast.Name)), "bits")
+        g["names"] = (BIT, BITS)
+        b0 = _cval(p.env[BIT]) if isinstance(p.env.get(BIT), CI) else None
+        if b0 is None or not isinstance(p.env.get(BITS), CI):
+            raise Unsupported("encode_bitpacked: pending-bit counter / accumulator not found or not concrete on loop entry")
+        lia, bvs = mk_inv(p, b0, z3.IntVal(0), z3.IntVal(0), eng.conv(p.env[BITS], 32, True, p).bv, n, base)
         prove(f"closure.invariant_on_entry(bit={b0})", p.pc, z3.And(*lia, *bvs),
               "before the first value: no payload byte written, no pending bit, accumulator zero", mf)
         assigned = _assigned_names(st.body) | _assigned_names([st])
@@ -388,17 +461,18 @@ def encode_bitpacked_closure(w, timeout, max_states=64):
             q.env = dict(q.env)
             # every local the body assigns is arbitrary (under the invariant)
             for nm in sorted(assigned):
-                if nm in ("bit", "bits") or nm not in q.env:
+                if nm in (BIT, BITS) or nm not in q.env:
                     continue
                 v0 = q.env[nm]
                 if isinstance(v0, NoneV) or v0 is NONE:
                     continue
                 q.env[nm] = eng.havoc_like(v0, nm + "_havoc", q)
-            q.env["bit"] = CI(z3.BitVecVal(b, 32), 32, True, z3.IntVal(b), (b, b))
-            q.env["bits"] = CI(bits, 32, True)
+            q.env[BIT] = CI(z3.BitVecVal(b, 32), 32, True, z3.IntVal(b), (b, b))
+            q.env[BITS] = CI(bits, 32, True)
             ex = q.fork(z3.Not(e < hi))
             if eng.feasible(ex):
                 ex.ghost["exit_state"] = (b, c, e)
+                ex.ghost["exit_bvs"] = list(bvs)
                 exits.append(ex)
             body = q.fork(e < hi)
             if not eng.feasible(body):
@@ -406,6 +480,14 @@ def encode_bitpacked_closure(w, timeout, max_states=64):
             ve = value_at(vmem, e)
             # precondition `every value lies inside the width`, instantiated at the value this iteration reads
             body.pc.append(in_width(ve, w))
+            # cut: the bytes this iteration completes fit the buffer (from the capacity precondition; proved, then used - it makes the
+            # `buffer full` branch of write_byte infeasible without re-deriving it at every store)
+            m_fit = (b + w) // 8 if 0 <= b < 8 else 0
+            if m_fit:
+                fitl = oloc + m_fit <= cy.nbytes(body, "o")
+                if prove(f"closure.state(bit={b}).bytes_of_this_value_fit", lia_part(body.pc), fitl,
+                         "capacity precondition => the bytes completed by this value fit the buffer", mf, kind="safety") == PROVED:
+                    body.pc.append(fitl)
             starts = eng.assign(st.target, PyI(e), body)
             n_before = len(eng.oblig)
             outs = eng.block(st.body, starts)
@@ -414,12 +496,12 @@ def encode_bitpacked_closure(w, timeout, max_states=64):
             for r in outs:
                 if r.ctl is not None:
                     raise Unsupported("abrupt exit inside the encode_bitpacked value loop")
-                b2 = _cval(r.env["bit"]) if isinstance(r.env.get("bit"), CI) else None
+                b2 = _cval(r.env[BIT]) if isinstance(r.env.get(BIT), CI) else None
                 if b2 is None:
-                    raise Unsupported("control variable `bit` not concrete after one loop iteration")
+                    raise Unsupported("pending-bit counter not concrete after one loop iteration")
                 nm = f"closure.state(bit={b})->(bit={b2})"
                 c2 = z3.simplify(cy.loc(r, "o") - base)
-                bits2 = eng.conv(r.env["bits"], 32, True, r).bv
+                bits2 = eng.conv(r.env[BITS], 32, True, r).bv
                 M2 = r.mem["o"]
                 core = [8 * c + b == w * e, 0 <= e, e < n, c >= 0]
                 if w > 0:
@@ -460,11 +542,12 @@ def encode_bitpacked_closure(w, timeout, max_states=64):
                 prove(nm + ".pending_bits_are_spec", r.pc, z3.And(*bvs2),
                       "bits == the `bit` stream bits after the last complete byte, zero above them (v << bit keeps every bit; bits >>= 8 "
                       "shifts in zeros)", mf)
-                prove(nm + ".cursor_algebra", r.pc, z3.And(*lia2), "8c + bit == width*e, cursor == base + c, e <= n after the iteration", mf)
+                prove(nm + ".cursor_algebra", lia_part(r.pc), z3.And(*lia2), "8c + bit == width*e, cursor == base + c, e <= n after the iteration", mf)
                 # (5) memory invariant, at Skolem indices, from the instances of the old one
                 i0, x0 = z3.Int(f"i0!{k}"), z3.Int(f"x0!{k}")
                 new = dict(mem_facts(M2, c + m_new, base, mem_h))
-                prove(nm + ".output_prefix_is_spec_and_frame", list(r.pc) + inst(r, "spec", i0) + inst(r, "frame", x0),
+                prove(nm + ".output_prefix_is_spec_and_frame",
+                      [oloc == base + c, c >= 0, stored] + untouched + inst(r, "spec", i0) + inst(r, "frame", x0),
                       z3.And(new["spec"](i0), new["frame"](x0)),
                       "payload bytes [0, c') are the SPECBIT bytes and nothing else differs from the memory after the header", mf)
                 prove(nm + ".values_not_written", [], r.mem["vals"] == vmem, "the input is not written", mf)
@@ -474,7 +557,7 @@ def encode_bitpacked_closure(w, timeout, max_states=64):
             raise Unsupported("control-state closure did not close within the state budget")
         return exits
     loops = {("encode_bitpacked", 0): LoopSpec("hook", inv=hook), ("encode_bitpacked", 1): LoopSpec("unroll", 6)}
-    eng = engine(loops=loops, handlers={"encode_unsigned_varint": h_varint_contract})
+    eng = engine(loops=loops, handlers={"encode_unsigned_varint": h_varint_contract, "NumpyIO.write_byte": h_write_byte_contract})
     p = Path()
     o = cy.new_io(p, "o")
     n = z3.Int("n_values")
@@ -531,21 +614,603 @@ def encode_bitpacked_closure(w, timeout, max_states=64):
                      "the run header must be written exactly once")
         # whole payload, bit by bit, at a Skolem byte index
         cw = loc1 - base
-        defs = [VB(8 * i_sk + u) == specbit(vmem, w, n, 8 * i_sk + u) for u in range(8)]          # instances of the definition of SPECBIT
-        goal = z3.And(*[z3.Extract(u, u, z3.Select(m1, base + i_sk)) == specbit(vmem, w, n, 8 * i_sk + u) for u in range(8)])
-        prove("payload_bits_are_spec", list(q.pc) + defs + inst(q, "spec", i_sk) + [0 <= i_sk, i_sk < cw], goal,
+        # SPECBIT(t) stands for its definition (specbit(values, w, n, t)): the equality of the two is the definition itself, and the only
+        # other facts about SPECBIT on this path are the invariant and the instances proved as `new_bits_are_value_bits`
+        goal = z3.And(*[z3.Extract(u, u, z3.Select(m1, base + i_sk)) == VB(8 * i_sk + u) for u in range(8)])
+        padding = [z3.Implies(8 * i_sk + u >= w * n, VB(8 * i_sk + u) == 0) for u in range(8)]     # definition of SPECBIT beyond the values
+        prove("payload_bits_are_spec", lia_part(q.pc) + q.ghost.get("exit_bvs", []) + inst(q, "spec", i_sk) + padding + [0 <= i_sk, i_sk < cw], goal,
               "every bit of every payload byte written: stream bit t == bit (t % w) of values[t / w] for t < w*n, 0 (padding) beyond", mf)
-        prove("cursor_covers_all_value_bits", q.pc, loc1 == base + pay,
+        prove("cursor_covers_all_value_bits", lia_part(q.pc), loc1 == base + pay,
               "cursor == header end + ceil(w*n/8): all bytes carrying value bits are written (the last zero-padded), none beyond", mf)
-        prove("cursor_is_whole_groups[n%8==0]", list(q.pc) + [n % 8 == 0], loc1 == base + groups * w,
+        prove("cursor_is_whole_groups[n%8==0]", lia_part(q.pc) + [n % 8 == 0], loc1 == base + groups * w,
               "n a multiple of 8: the payload is exactly the groups*width bytes the header announces", mf)
-        prove("cursor_is_whole_groups[partial last group]", list(q.pc) + [n % 8 != 0], loc1 == base + groups * w,
+        prove("cursor_is_whole_groups[partial last group]", lia_part(q.pc) + [n % 8 != 0], loc1 == base + groups * w,
               "n not a multiple of 8: the last group is completed with zero values - the payload is still groups*width bytes", mf)
         prove("frame", list(q.pc) + inst(q, "frame", idx) + [z3.Or(idx < loc0, idx >= loc1)], z3.Select(m1, idx) == z3.Select(mem0, idx),
               "nothing outside [old cursor, new cursor) is modified", mf)
         prove("values_not_written", [], q.mem["vals"] == vmem, "the input is not written", mf)
-        prove("header_value_fits_int32", q.pc, hdr <= 2 ** 31 - 1,
+        prove("header_value_fits_int32", lia_part(q.pc), hdr <= 2 ** 31 - 1,
               "(ceil(n/8) << 1) | 1 is representable in the int32 it is computed in, for every run length the format allows", mf, kind="safety")
     if nret == 0:
         res.addk(pre + "payload_bits_are_spec", "functional", UNKNOWN, None, 0.0, "engine", "no returning path")
     return res
+
+
+# =================================================================================================
+# encode_rle_bp: optional 4-byte length prefix around one bit-packed run (encode_bitpacked by its contract)
+# =================================================================================================
+def k_encode_rle_bp(timeout):
+    res = EResults()
+    pre = "encode_rle_bp"
+    K = z3.Int("K_run_bytes")
+    calls = []
+
+    def h_bp(eng, p, args, kw, node):
+        """encode_bitpacked(values, width, o) by its contract: advances by K bytes (header + payload), writes only those"""
+        values, width, o = args
+        if not isinstance(o, Ref):
+            raise Unsupported("encode_bitpacked: output is not a NumpyIO")
+        name = o.oid
+        loc0, nb = cy.loc(p, name), cy.nbytes(p, name)
+        eng.oblige(p, f"encode_rle_bp.run_fits_buffer@L{node.lineno}", "safety", loc0 + K <= nb, node,
+                   note="precondition of the callee contract: room for the run at the cursor the run is written at")
+        k = next(eng.counter)
+        m1 = z3.Const(f"mem_after_run!{k}", MemSort)
+        nl = CI.var(f"loc_after_run!{k}", 32, False)
+        old = p.mem[name]
+        p.ghost["bp_calls"] = p.ghost.get("bp_calls", []) + [(values, width, o, loc0, old, m1)]
+        p.mem[name] = m1
+        p.heap[name] = dict(p.heap[name], loc=nl)
+        p.pc += [nl.range_constraint(), nl.iv == loc0 + K]
+        p.ghost["facts"] = p.ghost.get("facts", []) + [
+            ("frame", lambda i, m1=m1, old=old, loc0=loc0: z3.Implies(z3.Or(i < loc0, i >= loc0 + K), z3.Select(m1, i) == z3.Select(old, i)))]
+        return [(p, NONE)]
+    def h_write_int(eng, p, args, kw, node):
+        """the real NumpyIO.write_int, inlined; the argument is recorded (as the int32 it is converted to) for the postcondition"""
+        ci = eng.conv(args[1], 32, True, p)
+        p.ghost["write_int_args"] = p.ghost.get("write_int_args", []) + [ci]
+        out = []
+        for r in eng.run("NumpyIO.write_int", p, [args[0], ci], kw):
+            v = r.ctl[1] if r.ctl[0] == "ret" else NONE
+            r.ctl = None
+            out.append((r, v))
+        return out
+    eng = engine(handlers={"encode_bitpacked": h_bp, "NumpyIO.write_int": h_write_int})
+    p = Path()
+    o = cy.new_io(p, "o")
+    n = z3.Int("n_values")
+    p.mem["vals"] = z3.Const("vals_mem", MemSort)
+    p.rsize["vals"] = 4 * n
+    values = View("vals", z3.IntVal(0), n, (32, True))
+    width = cy.arg("width", "int32_t", p)
+    wl = cy.arg("withlength", "int32_t", p)
+    loc0, on, mem0 = cy.loc(p, "o"), cy.nbytes(p, "o"), p.mem["o"]
+    # requires: the run is K >= 1 bytes (at least the header), K < 2**31, and prefix + run fit the buffer
+    p.pc += [n >= 0, K >= 1, K < 2 ** 31, loc0 + z3.If(wl.iv != 0, 4, 0) + K <= on]
+    mf = lambda m: {"withlength": mv(m, wl.iv), "run_bytes": mv(m, K), "o_loc": mv(m, loc0), "o_nbytes": mv(m, on)}
+    if solve(list(p.pc) + [wl.iv != 0], 5000)[0] != REFUTED:
+        res.addk(pre + ".precondition_satisfiable", "functional", UNKNOWN, None, 0.0, "z3", "not shown satisfiable")
+        return res
+    outs = eng.run("encode_rle_bp", p, [values, width, o, wl])
+    res.take_engine(eng, pre + ".", timeout, mf)
+    idx = z3.Int("idx_sk")
+    seen = set()
+    for q in outs:
+        if q.ctl[0] != "ret":
+            continue
+        with_len = solve(qf(q.pc) + [wl.iv == 0], 5000)[0] == PROVED           # this path has withlength != 0
+        without = solve(qf(q.pc) + [wl.iv != 0], 5000)[0] == PROVED
+        if with_len == without:
+            res.addk(pre + ".paths_classified", "functional", UNKNOWN, None, 0.0, "engine", "a path mixes withlength == 0 and != 0")
+            continue
+        tag = "[withlength!=0]" if with_len else "[withlength=0]"
+        seen.add(tag)
+        m1, loc1 = q.mem["o"], cy.loc(q, "o")
+        bp = q.ghost.get("bp_calls", [])
+        off = 4 if with_len else 0
+
+        def prove(name, hyps, goal, note):
+            st, m, secs = solve(list(hyps) + [z3.Not(goal)], timeout)
+            res.addk(pre + tag + "." + name, "functional", st, mf(m) if m is not None else None, secs, "z3", note)
+        if len(bp) != 1:
+            res.addk(pre + tag + ".delegates_once", "functional", REFUTED, {"encode_bitpacked_calls": len(bp)}, 0.0, "engine",
+                     "exactly one bit-packed run is written")
+            continue
+        v_, w_, o_, at, m_before, m_run = bp[0]
+        same_args = (v_ is values) and isinstance(w_, CI) and isinstance(o_, Ref) and o_.oid == "o"
+        prove("delegates_once", qf(q.pc), z3.And(z3.BoolVal(bool(same_args)), eng.ci_int(w_) == width.iv if isinstance(w_, CI) else z3.BoolVal(False),
+                                                 at == loc0 + off),
+              "one run, of the given values at the given width, written right after the place of the length prefix" if with_len else
+              "one run, of the given values at the given width, written at the cursor")
+        prove("cursor", qf(q.pc), loc1 == loc0 + off + K, "cursor right after the run")
+        if with_len:
+            le = z3.Concat(*[z3.Select(m1, loc0 + b) for b in reversed(range(4))])
+            wi = q.ghost.get("write_int_args", [])
+            note = "the 4 bytes before the run are its byte length, little endian (hybrid <length> prefix)"
+            if len(wi) == 1 and wi[0].iv is not None:
+                # two steps under one name: the int32 written has the value K (linear, on the engine's integer view of the C value);
+                # the 4 bytes at the old cursor are the little-endian image of that int32
+                prove("length_prefix_is_payload_size", lia_part(q.pc), wi[0].iv == K, note)
+                prove("length_prefix_is_payload_size", qf(q.pc), le == wi[0].bv, note)
+            else:
+                prove("length_prefix_is_payload_size", qf(q.pc), le == z3.Int2BV(K, 32), note)
+            prove("run_bytes_untouched_by_prefix", qf(q.pc) + [idx >= loc0 + 4, idx < loc0 + 4 + K], z3.Select(m1, idx) == z3.Select(m_run, idx),
+                  "writing the prefix afterwards does not touch the run")
+        else:
+            prove("run_bytes_untouched", qf(q.pc) + [idx >= loc0, idx < loc0 + K], z3.Select(m1, idx) == z3.Select(m_run, idx),
+                  "nothing is written after the run")
+        prove("frame", qf(q.pc) + inst(q, "frame", idx) + [z3.Or(idx < loc0, idx >= loc1)], z3.Select(m1, idx) == z3.Select(mem0, idx),
+              "nothing outside [old cursor, new cursor) is modified")
+    for tag in ("[withlength!=0]", "[withlength=0]"):
+        if tag not in seen:
+            res.addk(pre + tag + ".cursor", "functional", UNKNOWN, None, 0.0, "engine", "no returning path for this case")
+    return res
+
+
+# =================================================================================================
+# write_bitpacked1: PLAIN boolean packing (one input byte per value -> one bit, LSB first)
+# =================================================================================================
+def _packed_lsb(fmem, in0, j, count=None):
+    """byte j of the LSB-first packing of the 0/1 bytes at fmem[in0..]: bit u is value 8j + u (0 beyond `count`)"""
+    bits = []
+    for u in reversed(range(8)):
+        b = z3.Extract(0, 0, z3.Select(fmem, in0 + 8 * j + u))
+        bits.append(b if count is None else z3.If(8 * j + u < count, b, z3.BitVecVal(0, 1)))
+    return z3.Concat(*bits)
+
+
+def k_write_bitpacked1(timeout):
+    """two runs of the real function: `structure` (cursor / frame / safety by an inductive invariant without the value clause) and
+    `lsb` (the invariant also says: every byte written so far is the LSB-first packing - the Parquet order, inverse of read_bitpacked1)"""
+    res = EResults()
+    kname = "__k0_write_bitpacked1"
+    for variant in ("structure", "lsb"):
+        def inv(eng, p, variant=variant):
+            k = p.env[kname].z
+            g = p.ghost
+            in0, out0, fmem, omem0 = g["in0"], g["out0"], g["fmem0"], g["omem0"]
+            m = p.mem["o"]
+            j, idx = z3.Int("jq"), z3.Int("idxq")
+            parts = [0 <= k, k <= eng.ci_int(p.env["count"]) / 8, p.env["inptr"].off == in0 + 8 * k, p.env["outptr"].off == out0 + k,
+                     z3.ForAll([idx], z3.Implies(z3.Or(idx < out0, idx >= out0 + k), z3.Select(m, idx) == z3.Select(omem0, idx)))]
+            if variant == "lsb":
+                parts.append(z3.ForAll([j], z3.Implies(z3.And(0 <= j, j < k), z3.Select(m, out0 + j) == _packed_lsb(fmem, in0, j))))
+            return z3.And(*parts)
+        loops = {("write_bitpacked1", 0): LoopSpec("invariant", inv=inv, modifies=["inptr", "outptr", "data", "indata", "counter", "i"],
+                                                   havoc_mem=["o"],
+                                                   variant=lambda eng, p: eng.ci_int(p.env["count"]) / 8 - p.env[kname].z),
+                 ("write_bitpacked1", 1): LoopSpec("unroll", 8), ("write_bitpacked1", 2): LoopSpec("unroll", 7)}
+        eng = engine(loops=loops)
+        p = Path()
+        f, o = cy.new_io(p, "f"), cy.new_io(p, "o")
+        count = cy.arg("count", "int32_t", p)
+        floc0, fn, oloc0, on = cy.loc(p, "f"), cy.nbytes(p, "f"), cy.loc(p, "o"), cy.nbytes(p, "o")
+        fmem0, omem0 = p.mem["f"], p.mem["o"]
+        nout = (count.iv + 7) / 8
+        # requires: 0 <= count <= INT32_MAX - 7; the count input bytes are present and are 0 or 1 (numpy bool); room for ceil(count/8) bytes
+        p.pc += [count.iv >= 0, count.iv <= 2 ** 31 - 8, floc0 + count.iv <= fn, oloc0 + nout <= on]
+        tail0 = 8 * (count.iv / 8)
+        for i in range(7):
+            p.pc.append(z3.Implies(tail0 + i < count.iv, z3.ULE(z3.Select(fmem0, floc0 + tail0 + i), 1)))
+        p.ghost.update(in0=floc0, out0=oloc0, fmem0=fmem0, omem0=omem0)
+        mf = lambda m: {"count": mv(m, count.iv), "f_loc": mv(m, floc0), "f_nbytes": mv(m, fn), "o_loc": mv(m, oloc0), "o_nbytes": mv(m, on),
+                        "in_bytes": [mv(m, z3.Select(fmem0, floc0 + k_)) for k_ in range(8)]}
+        if solve(list(p.pc) + [count.iv >= 9], 5000)[0] != REFUTED:
+            res.addk("write_bitpacked1.precondition_satisfiable", "functional", UNKNOWN, None, 0.0, "z3", "not shown satisfiable")
+            return res
+        outs = eng.run("write_bitpacked1", p, [f, count, o])
+        if variant == "structure":
+            res.take_engine(eng, "write_bitpacked1.", timeout, mf)
+        else:
+            # only the value clause is new in this run: keep the invariant obligations, drop the duplicated safety ones
+            eng.oblig = [ob for ob in eng.oblig if ob.kind == "inv"]
+            for ob in eng.oblig:
+                ob.name = ob.name.replace("write_bitpacked1.", "write_bitpacked1.[lsb]", 1)
+            res.take_engine(eng, "write_bitpacked1.", timeout, mf)
+        j, idx = z3.Int("j_sk"), z3.Int("idx_sk")
+        nret = 0
+        for q in outs:
+            if q.ctl[0] != "ret":
+                continue
+            nret += 1
+            m1 = q.mem["o"]
+            if variant == "structure":
+                post(res, "write_bitpacked1.output_cursor", q.pc, cy.loc(q, "o") == oloc0 + nout, timeout, "o.loc advanced by ceil(count / 8)", mf)
+                for rg, cond in (("[count==0]", count.iv == 0), ("[count>=1]", count.iv >= 1)):
+                    post(res, "write_bitpacked1.input_cursor" + rg, list(q.pc) + [cond], cy.loc(q, "f") == floc0 + count.iv, timeout,
+                         "file_obj.loc advanced by count: the input holds one byte per value (int8 / bool array)", mf)
+                    post(res, "write_bitpacked1.input_cursor_stays_in_buffer" + rg, list(q.pc) + [cond], cy.loc(q, "f") <= fn, timeout,
+                         "class invariant loc <= nbytes of the input after the call (the next unchecked read_byte / pointer read relies on it)",
+                         mf, kind="safety")
+                post(res, "write_bitpacked1.frame", list(q.pc) + [z3.Or(idx < oloc0, idx >= oloc0 + nout)],
+                     z3.Select(m1, idx) == z3.Select(omem0, idx), timeout, "no byte outside the ceil(count / 8) packed bytes is written", mf)
+                post(res, "write_bitpacked1.input_not_written", q.pc, q.mem["f"] == fmem0, timeout, "the input buffer is not written", mf)
+            else:
+                # a counter-model is looked for among short inputs first (same hypotheses plus count <= 7: a model of that is a model)
+                goal = z3.Select(m1, oloc0 + j) == _packed_lsb(fmem0, floc0, j, count.iv)
+                post(res, "write_bitpacked1.values_lsb_first[count<=1]", list(q.pc) + [0 <= j, j < nout, count.iv <= 1], goal, timeout,
+                     "a single value is packed into bit 0", mf)
+                small = solve(list(q.pc) + [0 <= j, j < nout, count.iv >= 2, count.iv <= 7, z3.Not(goal)], 3000)
+                extra = [count.iv <= 7] if small[0] == REFUTED else []
+                post(res, "write_bitpacked1.values_lsb_first[count>=2]", list(q.pc) + [0 <= j, j < nout, count.iv >= 2] + extra, goal, timeout,
+                     "output byte j, bit u == input value 8j + u (LSB first: PLAIN boolean / bit width 1 of the format; what read_bitpacked1 "
+                     "decodes), zero padding beyond count", mf)
+        if nret == 0:
+            res.addk(f"write_bitpacked1.{'output_cursor' if variant == 'structure' else 'values_lsb_first'}", "functional", UNKNOWN, None, 0.0,
+                     "engine", "no returning path")
+    return res
+
+
+# =================================================================================================
+# writer.encode_dict (Python): the dictionary-index page body, a bit-packed run framed by hand
+# =================================================================================================
+def _view_bts(p, v):
+    from .filemodel import Bts
+    if isinstance(v, BytesV):
+        return v.seq
+    if isinstance(v, View):
+        mem, off = p.mem[v.region], v.off
+        return Bts(v.n, lambda i, mem=mem, off=off: z3.Select(mem, off + i))
+    raise Unsupported("bytes of " + type(v).__name__)
+
+
+def k_encode_dict(timeout):
+    from vc.front_py import parse_module
+    from .filemodel import Bts, concat, eq_goal
+    res = EResults()
+    wfuncs, _, _ = parse_module("fastparquet/writer.py")
+    n, item = z3.Int("n_rows"), z3.Int("itemsize")
+    PAY = z3.Function("values_tobytes", z3.IntSort(), z3.BitVecSort(8))
+    payload = Bts(n * item, lambda i: PAY(i))
+    made = {}
+
+    class Buf:
+        tracked = False
+
+        def __init__(self, size):
+            self.size = size
+
+    class DType:
+        tracked = False
+
+        def attr(self, eng, p, name):
+            if name == "itemsize":
+                return PyI(item)
+            raise Unsupported("dtype." + name)
+
+    class Values:
+        tracked = False
+
+        def attr(self, eng, p, name):
+            if name == "dtype":
+                return Custom(DType())
+            raise Unsupported("values." + name)
+
+        def call_method(self, eng, p, name, args, kw, node):
+            if name == "tobytes":
+                return [(p, BytesV(payload))]
+            raise Unsupported("values." + name)
+
+    class Data:
+        tracked = False
+
+        def attr(self, eng, p, name):
+            if name == "values":
+                return Custom(Values())
+            raise Unsupported("data." + name)
+
+        def len(self, eng, p):
+            return PyI(n)
+
+    def h_empty(eng, p, args, kw, node):
+        return [(p, Custom(Buf(eng.as_int(args[0], p))))]
+
+    def h_numpyio(eng, p, args, kw, node):
+        if not (isinstance(args[0], Custom) and isinstance(args[0].h, Buf)):
+            raise Unsupported("NumpyIO over something that is not the scratch buffer")
+        size = args[0].h.size
+        nb = CI(z3.Int2BV(size, 32), 32, False, size, (0, 2 ** 32 - 1))
+        zero = CI(z3.BitVecVal(0, 32), 32, False, z3.IntVal(0), (0, 0))
+        made["size"] = size
+        return [(p, cy.new_io(p, "o", loc=zero, nbytes=nb))]
+
+    def h_varint(eng, p, args, kw, node):
+        return h_varint_contract(eng, p, args, kw, node)
+
+    def h_write_byte(eng, p, args, kw, node):
+        """the real NumpyIO.write_byte inlined, preceded by the obligation that it is not the silent-drop case"""
+        nm = args[0].oid
+        eng.oblige(p, f"encode_dict.width_byte_fits_buffer@L{node.lineno}", "safety", cy.loc(p, nm) < cy.nbytes(p, nm), node,
+                   note="NumpyIO.write_byte drops the byte silently when the buffer is full")
+        out = []
+        for r in eng.run("NumpyIO.write_byte", p, args, kw):
+            v = r.ctl[1] if r.ctl[0] == "ret" else NONE
+            r.ctl = None
+            out.append((r, v))
+        return out
+    handlers = {"np.empty": h_empty, "NumpyIO": h_numpyio, "cencoding.encode_unsigned_varint": h_varint,
+                "NumpyIO.write_byte": h_write_byte,
+                "bytes": lambda e, p, a, k, nd: [(p, BytesV(_view_bts(p, a[0])))],
+                "bytes+": lambda e, p, a, b, nd: BytesV(concat(_view_bts(p, a), _view_bts(p, b)))}
+    eng = engine(handlers=handlers, extra_funcs={"encode_dict": wfuncs["encode_dict"]}, opaque_calls=True)
+    p = Path()
+    # requires: a categorical's codes (int8 / int16 / int32), fewer than 2**31 rows
+    p.pc += [n >= 0, n < 2 ** 31, z3.Or(item == 1, item == 2, item == 4)]
+    mf = lambda m: {"n_rows": mv(m, n), "itemsize": mv(m, item)}
+    try:
+        outs = eng.run("encode_dict", p, [Custom(Data()), NONE])
+    except Unsupported as ex:
+        res.addk("encode_dict.out_of_reach", "functional", UNKNOWN, None, 0.0, "engine", str(ex))
+        return res
+    for ob in eng.oblig:
+        ob.name = ob.name.replace("encode_dict.header_fits_buffer", "encode_dict.scratch_capacity.header_fits_buffer")
+    res.take_engine(eng, "encode_dict.", timeout, mf)
+    groups = (n + 7) / 8
+    hdr = 2 * groups + 1
+    L = uleb_len_int(hdr)
+    width = 8 * item
+    hb = z3.Int2BV(hdr, 64)
+
+    def uleb_at(i):
+        e = z3.BitVecVal(0, 8)
+        for u in reversed(range(10)):
+            low7 = (z3.Extract(7, 0, z3.LShR(hb, 7 * u)) & 0x7F) if 7 * u < 64 else z3.BitVecVal(0, 8)
+            e = z3.If(i == u, z3.If(u < L - 1, low7 | 0x80, low7), e)
+        return e
+    spec = concat(Bts(1, lambda i: z3.Int2BV(width, 8)), Bts(L, uleb_at), payload)
+    k = z3.Int("k_skolem")
+    nret = 0
+    for q in outs:
+        if q.ctl[0] != "ret":
+            continue
+        nret += 1
+        blk = q.ctl[1]
+        if not isinstance(blk, BytesV):
+            res.addk("encode_dict.block_is_spec", "functional", UNKNOWN, None, 0.0, "engine", "the result is not a byte string")
+            continue
+        hyps = list(q.pc) + inst(q, "frame", z3.IntVal(0))
+        st, m, secs = solve(hyps + [z3.Not(eq_goal(blk.seq, spec, k))], timeout)
+        res.addk("encode_dict.block_is_spec", "functional", st,
+                 dict(mf(m), block_len=mv(m, blk.seq.n), spec_len=mv(m, spec.n), differs_at=mv(m, k)) if m is not None else None, secs, "z3",
+                 "page body == bit-width byte (8 * itemsize) ++ ULEB128((ceil(n/8) << 1) | 1) ++ values.tobytes(), nothing else")
+        st, m, secs = solve(lia_part(q.pc) + [z3.Not(cy.loc(q, "o") == 1 + L)], timeout)
+        res.addk("encode_dict.scratch_capacity", "functional", st, mf(m) if m is not None else None, secs, "z3",
+                 "width byte and run header all fitted the scratch buffer: cursor == 1 + uleb_len(header), nothing dropped")
+        # the run the header announces: groups * 8 values of `width` bits = groups * width bytes
+        for nm, cond, note in (("[n%8==0]", n % 8 == 0, "n a multiple of 8: the payload is exactly the groups*width bytes the header announces"),
+                               ("[partial last group]", n % 8 != 0,
+                                "n not a multiple of 8: the last group is completed with zero values - the payload is still groups*width bytes")):
+            st, m, secs = solve([n >= 0, n < 2 ** 31, z3.Or(item == 1, item == 2, item == 4), cond, z3.Not(payload.n == groups * width)], timeout)
+            res.addk("encode_dict.run_is_whole_groups" + nm, "functional", st, mf(m) if m is not None else None, secs, "z3", note)
+    if nret == 0:
+        res.addk("encode_dict.block_is_spec", "functional", UNKNOWN, None, 0.0, "engine", "no returning path")
+    return res
+
+
+# =================================================================================================
+# round-trip lemmas over the byte-level specification shared with the decoder contracts
+# =================================================================================================
+def roundtrip_bitpacked(w, timeout):
+    """encoder side: payload bit t == SPECBIT(t) (encode_bitpacked[w].payload_bits_are_spec).  decoder side: item j ==
+    kernels.spec_bitpacked_value(stream, w, j) (read_bitpacked[w].values).  Lemma: on a SPECBIT stream of values inside the width,
+    spec_bitpacked_value(stream, w, j) == values[j] for every j < n.  Case split on the bit offset r = (w*j) % 8 of value j."""
+    res = EResults()
+    name = f"bitpacked.roundtrip[w={w}]"
+    S, vmem = z3.Const("stream_mem", MemSort), z3.Const("vals_mem", MemSort)
+    base, n, j, B = z3.Int("base"), z3.Int("n_values"), z3.Int("j_sk"), z3.Int("byte0")
+    vj = value_at(vmem, j)
+    mf = lambda m: {"width": w, "n_values": mv(m, n), "j": mv(m, j), "value_j": mv(m, vj)}
+    note = ("decode-spec(encode-spec(x))[j] == x[j]: spec_bitpacked_value (what read_bitpacked[w].values is proved against) applied to the "
+            "SPECBIT stream (what encode_bitpacked[w].payload_bits_are_spec is proved against)")
+    for r in range(8):
+        core = [0 <= j, j < n, n >= 1, w * j == 8 * B + r, B >= 0]
+        if solve(core, 2000)[0] == PROVED:
+            continue                                          # this offset does not occur for this width
+        # index arithmetic (linear, proved, then used): window position of value j; stream bit 8(B+k)+u is bit s = 8k+u-r of value j
+        s_ = z3.Int("s_sk")
+        t_s = 8 * B + r + s_
+        lem = z3.And((w * j) / 8 == B, (w * j) % 8 == r, z3.Implies(z3.And(0 <= s_, s_ < w), z3.And(t_s / w == j, t_s % w == s_, t_s < w * n)))
+        st, m, secs = solve(core + [z3.Not(lem)], timeout)
+        res.addk(name, "functional", st, mf(m) if m is not None else None, secs, "z3", note)
+        if st != PROVED:
+            continue
+        hyps = core + [(w * j) / 8 == B, (w * j) % 8 == r, in_width(vj, w)]
+        for k in range(5):
+            for u in range(8):
+                s = 8 * k + u - r
+                if 0 <= s < w:
+                    t = 8 * (B + k) + u
+                    # encoder post at byte B + k, bit u (all value bits lie inside the payload), with SPECBIT evaluated by the index lemma
+                    hyps += [t / w == j, t % w == s, t < w * n,
+                             z3.Extract(u, u, z3.Select(S, base + (B + k))) == specbit(vmem, w, n, t)]
+        if solve(hyps, 5000)[0] != REFUTED:                    # vacuity guard: the hypotheses have a model
+            res.addk(name, "functional", UNKNOWN, None, 0.0, "z3", f"hypotheses not shown satisfiable (offset {r})")
+            continue
+        goal = spec_bitpacked_value(S, base + 0, w, j, 32) == vj
+        goal = z3.substitute(goal, ((w * j) / 8, B), ((w * j) % 8, z3.IntVal(r)))          # rewriting with the two equalities proved above
+        st, m, secs = solve(hyps + [z3.Not(goal)], timeout)
+        res.addk(name, "functional", st, mf(m) if m is not None else None, secs, "z3", note)
+    if name not in res.d:
+        res.addk(name, "functional", UNKNOWN, None, 0.0, "z3", "no bit offset was feasible (vacuous)")
+    return res
+
+
+def roundtrip_misc(timeout):
+    res = EResults()
+    # ---- run header: dispatched to the bit-packed branch with the right number of groups
+    n = z3.Int("n_values")
+    g = (n + 7) / 8
+    hdr = z3.Int2BV(2 * g + 1, 32)
+    gb = z3.Int2BV(g, 32)
+    post(res, "hybrid.header_roundtrip", [n >= 0, n <= 2 ** 31 - 8],
+         z3.And((2 * g + 1) % 2 == 1, (2 * g + 1) / 2 == g, 8 * g >= n, 8 * g < n + 8, 2 * g + 1 < 2 ** 31), timeout,
+         "header = (ceil(n/8) << 1) | 1: odd (the decoder's `header & 1` selects the bit-packed branch), header >> 1 == ceil(n/8) groups, "
+         "8 * groups covers the n values with fewer than 8 padding values, and the header fits the decoder's int32",
+         lambda m: {"n_values": mv(m, n)})
+    # ---- dictionary indices: little-endian items are the bit-packed stream at width 8 * itemsize
+    S = z3.Const("stream_mem", MemSort)
+    base, j = z3.Int("base"), z3.Int("j_sk")
+    for item in (1, 2, 4):
+        w = 8 * item
+        bs = [z3.Select(S, base + item * j + b) for b in reversed(range(item))]
+        le = z3.Concat(*bs) if item > 1 else bs[0]
+        want = z3.ZeroExt(32 - w, le) if w < 32 else le
+        post(res, f"dict_index.roundtrip[w={w}]", [j >= 0], spec_bitpacked_value(S, base + 0, w, j, 32) == want, timeout,
+             "values.tobytes() (little-endian items) IS the LSB-first bit-packed stream at width 8*itemsize: the decoder contract's value j == "
+             "item j, so the indices encode_dict writes decode to themselves", lambda m: {"j": mv(m, j)})
+    # ---- booleans: the LSB-first packing is what read_bitpacked1 inverts
+    X = z3.Const("bool_bytes", MemSort)
+    in0, cnt, i = z3.Int("in0"), z3.Int("count"), z3.Int("i_byte")
+    for u in range(8):
+        jj = 8 * i + u
+        hy = [i >= 0, jj < cnt, z3.Select(S, base + i) == _packed_lsb(X, in0, i, cnt), z3.ULE(z3.Select(X, in0 + jj), 1)]
+        goal = _bit(S, base, jj) == z3.Select(X, in0 + jj)
+        goal = z3.substitute(goal, (jj / 8, i), (jj % 8, z3.IntVal(u)))
+        st, m, secs = solve([i >= 0, z3.Not(z3.And(jj / 8 == i, jj % 8 == u))], timeout)
+        res.addk("bitpacked1.roundtrip", "functional", st, None, secs, "z3", "index arithmetic")
+        post(res, "bitpacked1.roundtrip", hy, goal, timeout,
+             "read_bitpacked1's specification (output byte j == bit j, LSB first, of the stream) applied to the LSB-first packing of 0/1 "
+             "bytes returns the input bytes", lambda m: {"i": mv(m, i)})
+    return res
+
+
+# =================================================================================================
+# task list (process pool) and native replay
+# =================================================================================================
+FUNCS_UNDER_CONTRACT = ["encode_bitpacked", "encode_rle_bp", "write_bitpacked1", "encode_unsigned_varint", "NumpyIO.write_byte",
+                        "NumpyIO.write_int", "NumpyIO.seek", "NumpyIO.tell", "NumpyIO.get_pointer"]
+
+
+def tasks(tier="quick"):
+    timeout = 10000 if tier == "quick" else 60000
+    ts = [("bp", w, timeout) for w in sorted(range(0, 33), key=lambda w: (-(8 // __import__("math").gcd(w, 8) if w else 1), w))]
+    ts += [("wbp1", None, timeout), ("rle_bp", None, timeout), ("varint", None, timeout), ("dict", None, timeout), ("rt_misc", None, timeout)]
+    ts += [("rt", w, timeout) for w in range(1, 33)]
+    return ts
+
+
+def _task(t):
+    kind, arg, timeout = t
+    t0 = time.time()
+    label = kind if arg is None else f"{kind}[{arg}]"
+    try:
+        if kind == "bp":
+            res = encode_bitpacked_closure(arg, timeout)
+        elif kind == "rt":
+            res = roundtrip_bitpacked(arg, timeout)
+        else:
+            res = {"wbp1": k_write_bitpacked1, "rle_bp": k_encode_rle_bp, "varint": varint_bytes_lemma, "dict": k_encode_dict,
+                   "rt_misc": roundtrip_misc}[kind](timeout)
+        return (label, res.order, res.d, res.kind, None, time.time() - t0)
+    except Unsupported as ex:          # the current source is outside the engine's subset: out of reach, undecided
+        nm = f"encoders.{label}.out_of_reach"
+        return (label, [nm], {nm: [(UNKNOWN, None, 0.0, "engine", str(ex))]}, {nm: "functional"}, None, time.time() - t0)
+    except Exception as ex:            # the proof script failed on this source: also undecided (reported by the caller)
+        import traceback
+        return (label, [], {}, {}, f"{type(ex).__name__}: {ex} | " + traceback.format_exc().splitlines()[-3].strip(), time.time() - t0)
+
+
+def run_all(tier="quick", only=None):
+    import concurrent.futures as cf
+    import multiprocessing as mp
+    import os
+    ts = [t for t in tasks(tier) if only is None or t[0] in only]
+    with cf.ProcessPoolExecutor(max_workers=min(16, os.cpu_count() or 4), mp_context=mp.get_context("fork")) as ex:
+        return list(ex.map(_task, ts))
+
+
+REPLAY_SRC = r'''
+import numpy as np, sys, json
+sys.path.insert(0, REPO)
+from fastparquet import cencoding as ce
+def uleb(x):
+    out = bytearray()
+    while x > 127:
+        out.append((x & 0x7F) | 0x80); x >>= 7
+    out.append(x)
+    return bytes(out)
+def spec_run(values, w):
+    """the bit-packed run the format prescribes: header, then groups*w bytes, LSB first, last group zero-padded"""
+    g = (len(values) + 7) // 8
+    bits = 0
+    for k, v in enumerate(values):
+        bits |= (int(v) & ((1 << w) - 1)) << (w * k)
+    return uleb((g << 1) | 1) + bits.to_bytes(g * w, "little")
+def run_encode_bitpacked(values, w, withlength=None):
+    cap = 16 + len(values) * 4 + 16
+    buf = np.full(cap, 0xAA, dtype="uint8")
+    o = ce.NumpyIO(buf)
+    if withlength is None:
+        ce.encode_bitpacked(np.array(values, dtype="int32"), w, o)
+    else:
+        ce.encode_rle_bp(np.array(values, dtype="int32"), w, o, withlength)
+    return bytes(buf[:o.tell()]), o.tell(), bytes(buf[o.tell():o.tell() + 4])
+'''
+
+
+def replay(name, model, repo):
+    """native replay of a refuted obligation on the compiled extension / the real Python function; -> (confirmed, text, program)"""
+    import re
+    head = "REPO = %r\n" % repo + REPLAY_SRC
+    m = re.match(r"encode_bitpacked\[w=(\d+)\]\.(.*)", name)
+    if m:
+        w, what = int(m.group(1)), m.group(2)
+        if "cursor_is_whole_groups" in what:
+            vals = ("[1]" if w else "[0]") + (" * 8" if "n%8==0" in what else "")
+        else:
+            # whole groups (no padding involved) reaching every pending-bit state, each value with only the top bit of the width set:
+            # a lost or smeared bit shows up where the specification has zeros
+            vals = "[(1 << %d) - (1 << 32 if %d == 32 else 0)] * 16" % (max(w - 1, 0), w)
+        prog = head + f'''
+values = {vals}
+got, cur, after = run_encode_bitpacked(values, {w})
+want = spec_run(values, {w})
+print(json.dumps(dict(VIOLATED=got != want, detail=dict(width={w}, values=[int(v) for v in values][:9], written=got.hex(), cursor=cur,
+      spec=want.hex(), spec_cursor=len(want), bytes_after_cursor_untouched=after.hex()))))
+'''
+        return _sub(prog)
+    if name.startswith("write_bitpacked1."):
+        prog = head + '''
+vals = np.array([1, 0, 0, 1, 1, 0, 1, 0, 1, 0, 0], dtype="int8")
+f = ce.NumpyIO(vals.view("uint8")); out = np.full(4, 0xAA, dtype="uint8"); o = ce.NumpyIO(out)
+ce.write_bitpacked1(f, len(vals), o)
+want = bytes(np.packbits(vals.astype(bool), bitorder="little"))
+got = bytes(out[:o.tell()])
+back = np.zeros(len(vals), dtype="uint8"); ce.read_bitpacked1(ce.NumpyIO(np.frombuffer(got + bytes(8), "uint8").copy()), len(vals), ce.NumpyIO(back))
+print(json.dumps(dict(VIOLATED=(got != want) or f.tell() != len(vals), detail=dict(values=vals.tolist(), written=got.hex(), spec_lsb_first=want.hex(),
+      read_bitpacked1_of_written=back.tolist(), input_cursor=f.tell(), input_cursor_spec=len(vals), input_nbytes=len(vals)))))
+'''
+        return _sub(prog)
+    if name.startswith("encode_dict."):
+        prog = head + '''
+import pandas as pd
+from fastparquet import writer
+n, item = %d, %d
+data = pd.Series(np.arange(n, dtype="int%%d" %% (8 * item)))
+blk = writer.encode_dict(data, None)
+g = (n + 7) // 8
+hdr = uleb((g << 1) | 1)
+payload = blk[1 + len(hdr):]
+print(json.dumps(dict(VIOLATED=len(payload) != g * 8 * item, detail=dict(n=n, itemsize=item, block=blk.hex(), announced_groups=g,
+      announced_payload_bytes=g * 8 * item, payload_bytes=len(payload)))))
+''' % (int((model or {}).get("n_rows") or 1) % 1000 or 1, int((model or {}).get("itemsize") or 1))
+        return _sub(prog)
+    return False, "no native replay registered for this obligation", None
+
+
+def _sub(prog):
+    """native code may crash: always a subprocess"""
+    import json
+    import subprocess
+    import sys
+    try:
+        r = subprocess.run([sys.executable, "-c", prog], capture_output=True, text=True, timeout=120)
+    except subprocess.TimeoutExpired:
+        return False, "replay timed out", prog
+    if r.returncode < 0:
+        return True, f"real function died with signal {-r.returncode}", prog
+    try:
+        out = json.loads(r.stdout.strip().splitlines()[-1])
+        return bool(out["VIOLATED"]), json.dumps(out["detail"])[:600], prog
+    except Exception:
+        return False, "replay produced no verdict: " + (r.stderr[-300:] or r.stdout[-300:]), prog
